@@ -134,7 +134,8 @@ def gen_symbolic(rng, tier):
 
 
 def wrap_cases():
-    """index space wraps: len_w = len_g*(max_deriv+1) mod 2^32 is small (no huge allocation)"""
+    """len_g*(max_deriv+1) >= 2^32 (and small modulo 2^32): the function must throw (it used to allocate
+    len_w mod 2^32 weights and index outside them -- fixed in e537b42)"""
     out = []
     for n, md in [(1, W32 - 1), (2, (1 << 31) - 1), (2, 1 << 31), (4, (1 << 30) - 1), (4, 1 << 30),
                   (3, (W32 + 2) // 3 - 1), (3, (2 * W32 + 1) // 3 - 1), (8, (1 << 29)), (2, (1 << 31) + 1)]:
@@ -216,8 +217,9 @@ def run(ctx):
         "SymEngine's add/mul/div on Integer/Rational are exact rational arithmetic returning canonical values (modelled by Qc); "
         "div(a, 0) returns ComplexInf (a <> 0) or NaN, and add/mul propagate zoo/nan by the table in FdiffModel.v "
         "(validated by the correspondence runs on grids with repeated points)",
-        "std::vector::operator[] outside the vector aborts (the library is built with -D_GLIBCXX_ASSERTIONS); in a normal "
-        "build the same accesses are undefined behaviour (heap overflow)",
+        "std::vector::operator[] outside the vector aborts (the library is built with -D_GLIBCXX_ASSERTIONS), so an access "
+        "outside grid/weights would be observable as CRASH; the model's theorem fdiff_total excludes it",
+        "max_deriv is an `unsigned` (< 2^32)",
         "grid.size() < 2^32 (numeric_cast<unsigned> is a plain cast in release builds)",
     ]
 
